@@ -115,12 +115,13 @@ Proof. intros. eapply step_inv_keep; [eapply do_sched_keep; eassumption|assumpti
 
 Lemma do_act_keep : forall cfg a st st' l, do_act cfg st a = (st', l) -> keep st st' /\ steps_of l = [].
 Proof.
-  intros cfg a st st' l H. destruct a as [k t p tag h body|tag|h]; cbn [do_act] in H.
+  intros cfg a st st' l H. destruct a as [k t p tag h body|tag|h|]; cbn [do_act] in H.
   - destruct (do_sched cfg st k t p tag h body) as [s rc] eqn:E. inversion H; subst.
     split; [eapply do_sched_keep; exact E|reflexivity].
   - inversion H; subst. split; [|reflexivity]. unfold keep, do_cancel.
     cbn [s_events s_steps s_time set_events]. repeat split. apply filter_step_cancel.
   - inversion H; subst. split; [|reflexivity]. unfold keep, do_drop. cbn. auto.
+  - inversion H; subst. split; [apply keep_refl|reflexivity].
 Qed.
 
 Lemma do_acts_keep : forall cfg acts st st' l, do_acts cfg st acts = (st', l) -> keep st st' /\ steps_of l = [].
@@ -128,8 +129,10 @@ Proof.
   intros cfg acts. induction acts as [|a r IH]; intros st st' l H; cbn [do_acts] in H.
   - inversion H; subst. split; [apply keep_refl|reflexivity].
   - destruct (do_act cfg st a) as [s1 l1] eqn:E1.
+    destruct (do_act_keep _ _ _ _ _ E1) as [K1 L1].
+    destruct (has_raise l1) eqn:Hr; [inversion H; subst; split; assumption|].
     destruct (do_acts cfg s1 r) as [s2 l2] eqn:E2. inversion H; subst.
-    destruct (do_act_keep _ _ _ _ _ E1) as [K1 L1]. destruct (IH _ _ _ E2) as [K2 L2].
+    destruct (IH _ _ _ E2) as [K2 L2].
     split; [eapply keep_trans; eassumption|]. rewrite steps_of_app, L1, L2. reflexivity.
 Qed.
 
@@ -269,6 +272,8 @@ Proof.
   - destruct (pop_event (s_events st)) as [[e rest]|] eqn:Ep.
     + destruct (Z.leb_spec (e_time e) endt).
       * destruct (exec_event cfg (set_events st rest) e) as [s1 l1] eqn:E1.
+        destruct (has_raise l1) eqn:Hr.
+        { inversion H; subst. eapply step_inv_exec_event; eassumption. }
         destruct (run_loop cfg n endt s1) as [[s2 l2] ok2] eqn:E2. inversion H; subst.
         eapply IH; [exact Habm| | | |exact E2].
         -- eapply inv_exec_event; eassumption.
@@ -360,8 +365,13 @@ Proof.
   - destruct (pop_event (s_events st)) as [[e rest]|] eqn:Ep.
     + destruct (Z.leb_spec (e_time e) endt).
       * destruct (exec_event cfg (set_events st rest) e) as [s1 l1] eqn:E1.
-        destruct (run_loop cfg n endt s1) as [[s2 l2] ok2] eqn:E2. inversion H; subst st' l ok; clear H.
         destruct (exec_event_step_cases _ _ _ _ _ _ Habm Hi Hs Ep E1) as [Hs1 Hcase].
+        destruct (has_raise l1) eqn:Hr.
+        { inversion H; subst st' l ok; clear H.
+          destruct Hcase as [(_ & Hk & Hl)|(_ & Hk & Hl)]; rewrite Hl, Hk.
+          - replace (s_steps st + 1 - s_steps st) with 1 by lia. split; [reflexivity|lia].
+          - rewrite Z.sub_diag. split; [reflexivity|lia]. }
+        destruct (run_loop cfg n endt s1) as [[s2 l2] ok2] eqn:E2. inversion H; subst st' l ok; clear H.
         assert (Hi1 : inv s1) by (eapply inv_exec_event; eassumption).
         assert (Hle1 : s_time s1 <= endt) by (rewrite (exec_event_time _ _ _ _ _ E1); assumption).
         destruct (IH _ _ _ _ Habm Hi1 Hs1 Hle1 E2) as [IH1 IH2].
